@@ -295,7 +295,7 @@ pub fn op_history(case: &J) -> J {
       Err(e) => return json!({ "harness_error": e }),
     }
   }
-  let mut first: std::collections::HashMap<(usize, usize), J> = std::collections::HashMap::new();
+  let mut first: std::collections::BTreeMap<(usize, usize), J> = std::collections::BTreeMap::new();
   let mut violations = vec![];
   let mut observations = 0usize;
   let mut repeats = 0usize;
